@@ -20,7 +20,7 @@ import z3
 from ..engine import Raised, TupleSort, is_raised
 from ..source import Module
 from ..spec import c01
-from ..values import BOOL, INT, NONE, STR, U, DictObj, Exc, Fn, Obj, Opaque, Outcome, Ref, State, Tup, Unsupported, Z
+from ..values import NORMAL, BOOL, INT, NONE, STR, U, DictObj, Exc, Fn, Obj, Opaque, Outcome, Ref, State, Tup, Unsupported, Z
 from . import arrays_common as AC
 
 NAME = "check_shape"
@@ -118,6 +118,22 @@ def build(repo=None):
     mod = Module("jaxtyping/_array_types.py", repo)
     fn = mod.func(FUNC)
     eng = AC.arrays_engine(mod)
+
+    def ill_typed(e, s, sort, kind, v):
+        # data-structure invariant of the multi-axis memo: a binding is an immutable (broadcastable-flag, shape-tuple) pair. The rollback
+        # snapshots are shallow dict copies -- they only protect the context because the stored values cannot be mutated in place.
+        e.oblige(s, "C01:memo-typing:multi-axis-bindings-are-immutable-(flag,-shape)-pairs(nothing-else-is-stored)", z3.BoolVal(False))
+        return z3.FreshConst(sort, "ill_typed_store")
+
+    eng.method_models["__ill_typed_store__"] = ill_typed
+
+    def slice_store(e, s, cont, v, node):
+        # `binding[:] = ...` on something fetched from a memo: bindings are immutable pairs (see above); whatever is mutated here in place
+        # is shared with every snapshot taken before
+        e.oblige(s, "C01:memo-typing:multi-axis-bindings-are-immutable-(flag,-shape)-pairs(nothing-else-is-stored)", z3.BoolVal(False))
+        return [(s, NORMAL)]
+
+    eng.method_models["__slice_store__"] = slice_store
     dt = eng.datatypes["dim"]
     ops = AC.Z3Ops(dt)
     eng.tuple_sorts["varentry"] = TupleSort("varentry", VarEntry, VarEntry.mk_var, [VarEntry.var_b, VarEntry.var_shape], ["bool", "seq:int"])
